@@ -54,7 +54,10 @@ import (
 	gio "github.com/whatap/golib/io"
 	"github.com/whatap/golib/lang/pack"
 
+	"github.com/whatap/golib/lang/step"
+
 	"verif/refcodec"
+	"verif/stepgen"
 	"verif/vlib"
 )
 
@@ -295,6 +298,44 @@ func stripIdx(p string) string {
 	return sb.String()
 }
 
+// ---------------------------------------------------------------- pack setters that serialize their argument
+
+// A blobSetter is a method of a pack that serializes what it is given and stores the bytes in
+// the pack (besides SetRecords*, which applyRecords drives): the stored slice is a result the
+// library made, and the caller sends it later.
+type blobSetter struct {
+	fn    string // finding-key name
+	field string // where the bytes are stored
+	call  func(p interface{}, steps []step.Step, ints []int32)
+}
+
+var blobSetters = map[string][]blobSetter{
+	"ProfilePack": {{"ProfilePack.SetProfile", "Steps", func(p interface{}, s []step.Step, _ []int32) { p.(*pack.ProfilePack).SetProfile(s) }}},
+	"ProfileStepSplitPack": {{"ProfileStepSplitPack.SetProfile", "Steps", func(p interface{}, s []step.Step, _ []int32) {
+		p.(*pack.ProfileStepSplitPack).SetProfile(s)
+	}}},
+	"ErrorSnapPack1": {
+		{"ErrorSnapPack1.SetProfile", "Profile", func(p interface{}, s []step.Step, _ []int32) { p.(*pack.ErrorSnapPack1).SetProfile(s) }},
+		{"ErrorSnapPack1.SetStack", "Stack", func(p interface{}, _ []step.Step, a []int32) { p.(*pack.ErrorSnapPack1).SetStack(a) }},
+	},
+}
+
+// setterArgs draws what the blob setters of a case are given (the same arguments in the
+// prologue and in the case).
+type setterArgs struct {
+	ref   []stepgen.RefStep
+	ints  []int32
+	alone map[string][]byte // fn -> the bytes the setter stored when called alone (private copy)
+}
+
+func (a *setterArgs) steps() []step.Step {
+	out := make([]step.Step, len(a.ref))
+	for i := range a.ref {
+		out[i] = stepgen.ToGolib(a.ref[i])
+	}
+	return out
+}
+
 // ---------------------------------------------------------------- (b) one case
 
 // harnessMu serialises the parts of the harness that use package-level state (the generator's
@@ -326,6 +367,7 @@ type pobj struct {
 	fn     string // the library call that returned raw
 	d      interface{}
 	stream bool
+	args   *setterArgs // types with blob setters
 }
 
 type pcase struct {
@@ -566,6 +608,23 @@ func heldPackCase(id, base string, names []string, r *vlib.Rand, par bool) {
 		if o.refFp == nil {
 			h.cnt["held_objects_not_decodable_alone"]++ // listed reader defects: written and held only
 		}
+		if bs := blobSetters[o.ts.Name]; bs != nil {
+			a := &setterArgs{ref: stepgen.GenSteps(r, r.Intn(6)), alone: map[string][]byte{}}
+			for n := r.Intn(20); n > 0; n-- {
+				a.ints = append(a.ints, r.I32())
+			}
+			for _, b := range bs {
+				b := b
+				tmp := newObj(o.ts.Name)
+				if p := vlib.Catch(func() {
+					b.call(tmp, a.steps(), a.ints)
+					a.alone[b.fn] = append([]byte{}, fieldOf(reflect.ValueOf(tmp).Elem(), b.field).Bytes()...)
+				}); p != nil {
+					delete(a.alone, b.fn)
+				}
+			}
+			o.args = a
+		}
 		objs = append(objs, o)
 	}
 	if len(objs) < 2 {
@@ -629,6 +688,35 @@ func heldPackCase(id, base string, names []string, r *vlib.Rand, par bool) {
 			if p == nil && len(blob) > 0 {
 				h.hold(newHeld(typ+".SetRecords", "the record blob "+o.tree.L[iRec].RecMode+" stored in a second instance of "+o.name, blob))
 				h.after("SetRecords ("+o.tree.L[iRec].RecMode+") on a second instance of "+o.name, nil)
+			}
+		}
+		// … and by the setters that serialize steps / a stack, on a second instance
+		if o.args != nil {
+			for _, b := range blobSetters[o.ts.Name] {
+				b := b
+				alone, ok := o.args.alone[b.fn]
+				if !ok {
+					continue
+				}
+				tmp := newObj(o.ts.Name)
+				var blob []byte
+				if p := vlib.Catch(func() {
+					b.call(tmp, o.args.steps(), o.args.ints)
+					blob = fieldOf(reflect.ValueOf(tmp).Elem(), b.field).Bytes()
+				}); p != nil {
+					h.fail(b.fn+":encode-panics/multi-object", fmt.Sprintf("%s on a second instance of %s panics (%v); alone the same call is fine", b.fn, o.name, p), nil)
+					return
+				}
+				cp := append([]byte{}, blob...)
+				if len(blob) > 0 {
+					h.hold(newHeld(b.fn, fmt.Sprintf("the %d bytes stored in field %s of a second instance of %s", len(blob), b.field, o.name), blob))
+				}
+				if !bytes.Equal(cp, alone) {
+					h.fail(b.fn+":bytes-differ/multi-object", fmt.Sprintf("%s with the same argument stores other bytes after other objects were written than alone (first difference at byte %d of %d)", b.fn, firstDiff(cp, alone), len(alone)),
+						map[string]interface{}{"stored_in_the_case": hexFull(cp), "stored_alone": hexFull(alone)})
+					return
+				}
+				h.after(fmt.Sprintf("%s (%d steps / %d frames) on a second instance of %s", b.fn, len(o.args.ref), len(o.args.ints), o.name), nil)
 			}
 		}
 		mode := r.Intn(5)
@@ -815,9 +903,10 @@ func heldPackCase(id, base string, names []string, r *vlib.Rand, par bool) {
 			fp, wp = h.walk(o.ts.Name, d)
 		}
 		if p != nil || wp != nil || fp == nil || diffNode(o.refFp, fp, "", "") != nil {
-			h.fail(o.fn+":result-altered-later",
-				fmt.Sprintf("at the end of the case the slice returned for the encoding of %s no longer decodes to the object it decoded to (panic %v/%v)", o.name, p, wp),
-				map[string]interface{}{"returned_slice_now": hexFull(o.raw), "was": hexFull(o.cp)})
+			// the bytes themselves were compared with their copy just above: they are what they were
+			h.fail(baseName(o.ts.Name)+":not-restored/multi-object",
+				fmt.Sprintf("%s: at the end of the case the (unchanged) encoding of %s no longer decodes to the object the same bytes gave alone (panic %v/%v)", baseName(o.ts.Name), o.name, p, wp),
+				map[string]interface{}{"bytes": hexFull(o.cp), "decoded_alone": renderStr(o.refFp, 4000), "decoded_now": renderStr(fp, 4000)})
 			return
 		}
 		h.cnt["held_final_decodes"]++
